@@ -82,13 +82,16 @@ StreamsManagerBase<MAX_STREAMS> {
     /// Creates the room for a new `Stream`, but returns only its `stream_id`, leaving the `Stream` creation per-se to the caller.
     pub fn create_stream_id(&self) -> u32 {
         self.created_streams_count.fetch_add(1, Relaxed);
+        vp!("sm.create.count");
         self.used_streams_count.fetch_add(1, Relaxed);
+        vp!("sm.create.vacant");
         let stream_id = match self.vacant_streams.consume_movable() {
             Some(stream_id) => stream_id,
             None => panic!("StreamsManager: '{}' has a MAX_STREAMS of {MAX_STREAMS} -- which just got exhausted: stats: {} streams were created; {} dropped. Please, increase the limit or fix the LOGIC BUG!",
                            self.streams_manager_name, self.created_streams_count.load(Relaxed), self.finished_streams_count.load(Relaxed)),
         };
         let keep_streams_running = unsafe { &mut * self.keep_streams_running.get() };
+        vp!("sm.create.flag", stream_id);
         keep_streams_running[stream_id as usize] = true;
         self.sync_vacant_and_used_streams();
         stream_id
@@ -98,11 +101,14 @@ StreamsManagerBase<MAX_STREAMS> {
     #[inline(always)]
     pub fn wake_stream(&self, stream_id: u32) {
         let wakers = unsafe { &* self.wakers.get() };
+        vp!("sm.wake", stream_id);
         match unsafe {wakers.get_unchecked(stream_id as usize)} {
             Some(waker) => waker.wake_by_ref(),
             None => {
                 // try again, syncing
+                vp!("sm.wake.lock", stream_id);
                 ogre_sync::lock(&self.wakers_lock);
+                vp!("sm.wake.retry", stream_id);
                 if let Some(waker) = unsafe {wakers.get_unchecked(stream_id as usize)} {
                     waker.wake_by_ref();
                 }
@@ -124,6 +130,7 @@ StreamsManagerBase<MAX_STREAMS> {
     /// Returns `false` if the `Stream` has been signaled to end its operations, causing it to report "out-of-elements" as soon as possible.
     #[inline(always)]
     pub fn keep_stream_running(&self, stream_id: u32) -> bool {
+        vp!("sm.flag", stream_id);
         unsafe {
             let keep_streams_running = &* self.keep_streams_running.get();
             *keep_streams_running.get_unchecked(stream_id as usize)
@@ -148,6 +155,7 @@ StreamsManagerBase<MAX_STREAMS> {
     /// Also guarantees that it will be awoken to react to the command immediately
     pub fn cancel_stream(&self, stream_id: u32) {
         let keep_streams_running = unsafe { &mut * self.keep_streams_running.get() };
+        vp!("sm.cancel", stream_id);
         keep_streams_running[stream_id as usize] = false;
         self.wake_stream(stream_id);
     }
@@ -157,6 +165,7 @@ StreamsManagerBase<MAX_STREAMS> {
     pub fn cancel_all_streams(&self) {
         let used_streams = unsafe { &* self.used_streams.get() };
         for stream_id in used_streams.iter() {
+            vp!("sm.cancelall.read");
             if *stream_id == u32::MAX {
                 break
             }
@@ -168,16 +177,20 @@ StreamsManagerBase<MAX_STREAMS> {
     pub fn register_stream_waker(&self, stream_id: u32, waker: &Waker) {
 
         let wakers = unsafe { &mut * self.wakers.get() };
+        vp!("sm.reg.cmp", stream_id);
 
         macro_rules! set {
             () => {
                 let waker = waker.clone();
+                vp!("sm.reg.lock", stream_id);
                 ogre_sync::lock(&self.wakers_lock);
+                vp!("sm.reg.store", stream_id);
                 let waker = unsafe { wakers.get_unchecked_mut(stream_id as usize).insert(waker) };
                 ogre_sync::unlock(&self.wakers_lock);
                 // the producer might have just woken the old version of the waker,
                 // so the following waking up line is needed to assure the consumers won't ever hang
                 // (as demonstrated by tests)
+                vp!("sm.reg.selfwake", stream_id);
                 waker.wake_by_ref();
             }
         }
@@ -206,11 +219,15 @@ StreamsManagerBase<MAX_STREAMS> {
     ///   4) Consumer #1, since it was not dropped, will be awaken and will run until the channel is empty again -- consuming both elements.
     pub fn report_stream_dropped(&self, stream_id: u32) {
         let wakers = unsafe { &mut * self.wakers.get() };
+        vp!("sm.drop.lock", stream_id);
         ogre_sync::lock(&self.wakers_lock);
+        vp!("sm.drop.waker", stream_id);
         wakers[stream_id as usize] = None;
         ogre_sync::unlock(&self.wakers_lock);
         self.finished_streams_count.fetch_add(1, Relaxed);
+        vp!("sm.drop.count", stream_id);
         self.used_streams_count.fetch_sub(1, Relaxed);
+        vp!("sm.drop.vacant", stream_id);
         self.vacant_streams.publish_movable(stream_id);
         self.sync_vacant_and_used_streams();
     }
@@ -226,7 +243,9 @@ StreamsManagerBase<MAX_STREAMS> {
     #[inline(always)]
     fn sync_vacant_and_used_streams(&self) {
         let used_streams = unsafe { &mut * self.used_streams.get() };
+        vp!("sm.sync.lock");
         ogre_sync::lock(&self.streams_lock);
+        vp!("sm.sync.peek");
         let mut vacant = unsafe { self.vacant_streams.peek_remaining().concat() };
         vacant.sort_unstable();
         let mut vacant_iter = vacant.iter();
@@ -237,18 +256,21 @@ StreamsManagerBase<MAX_STREAMS> {
                 Some(next_vacant_stream_id) => {
                     for used_stream_id in i .. *next_vacant_stream_id {
                         last_used_stream_id += 1;
+                        vp!("sm.sync.write", last_used_stream_id);
                         unsafe { *used_streams.get_unchecked_mut(last_used_stream_id as usize)  = used_stream_id };
                     }
                     i = *next_vacant_stream_id + 1;
                 }
                 None => {
                     last_used_stream_id += 1;
+                    vp!("sm.sync.write", last_used_stream_id);
                     unsafe { *used_streams.get_unchecked_mut(last_used_stream_id as usize) = i };
                     i += 1;
                 }
             }
         }
         for i in (last_used_stream_id + 1) as usize .. MAX_STREAMS {
+            vp!("sm.sync.sentinel", i);
             unsafe { *used_streams.get_unchecked_mut(i) = u32::MAX };
         }
         ogre_sync::unlock(&self.streams_lock);
@@ -319,6 +341,7 @@ StreamsManagerBase<MAX_STREAMS> {
 
     #[inline(always)]
     pub fn running_streams_count(&self) -> u32 {
+        vp!("sm.running");
         self.used_streams_count.load(Relaxed)
         // could also be: (MAX_STREAMS - self.vacant_streams.available_elements_count()) as u32
     }
